@@ -23,6 +23,7 @@ func Run(p *Plan, oracles func(*VM) []Oracle, trace bool) *Result {
 	res := &Result{Run: p.Run, PlanHash: p.Hash(), Probes: map[string]int{}, Faults: map[string]int{}}
 	sim := sched.New(p.Tape, p.Faults)
 	sim.KeepTrace = trace
+	sim.LazyDrain = p.Lazy
 	m := &VM{Plan: p, Sim: sim, Res: res, Slots: []interface{}{nil}, Disk: NewDisk(), Ext: map[string]interface{}{}}
 	if oracles != nil {
 		m.Oracles = oracles(m)
@@ -50,6 +51,16 @@ func Run(p *Plan, oracles func(*VM) []Oracle, trace bool) *Result {
 			states[m.abstractState()] = true
 		}
 		m.cur = len(p.Ops)
+		if left := sim.Finish(); len(left) > 0 {
+			for _, s := range left {
+				m.Probe("stranded_goroutine")
+				m.Violate("C11", "stranded-goroutine", "stranded: "+s, "at the end of the run (goroutines left behind by calls were allowed to run on during later calls) a library goroutine is blocked forever: "+s)
+			}
+			m.Ext["stranded_at_finish"] = len(left)
+		}
+		if sim.Stats.LeftBehind > 0 {
+			m.Probe("goroutines_outliving_their_call")
+		}
 		for _, o := range m.Oracles {
 			o.AtEnd(m)
 		}
@@ -57,6 +68,9 @@ func Run(p *Plan, oracles func(*VM) []Oracle, trace bool) *Result {
 	stranded := 0
 	for _, r := range m.Recs {
 		stranded += len(r.Call.Stranded)
+	}
+	if n, ok := m.Ext["stranded_at_finish"].(int); ok {
+		stranded += n
 	}
 	if berr != "" {
 		if strings.Contains(berr, "blocked goroutines remain") || strings.Contains(berr, "deadlock") {
@@ -715,7 +729,7 @@ func (m *VM) doVerify(rec *Rec, op *Op, t *TokObj) {
 	v.SimEnd = time.Now().UnixNano()
 	v.Class, v.ErrText, v.Failed = ClassifyAuthz(err), errStr(err), failedChecks(err)
 	rec.Class, rec.Err = v.Class, v.ErrText
-	if !strings.HasPrefix(v.Class, "limit") {
+	if !strings.HasPrefix(v.Class, "limit") || op.Has("query-after-limit") {
 		for _, q := range op.Qs {
 			v.Queries = append(v.Queries, queryRec(a, q))
 		}
